@@ -293,13 +293,14 @@ example : respFields 200
 /-- Invalid blocks are errors (4): a literal representation whose value string is
     missing altogether (the block ends after the name, given by index or as a
     literal) is BAD_DATA — for every table state, name and indexing mode. -/
-theorem c07_missing_value_is_error (cap : Nat) (hcap : cap ≤ 65535) (d : Dec) (hwf : d.tbl.WF)
-    (c : Choice) (h : Header) (hok : HeaderOk cap h)
-    (hlit : ¬ (c.mode = .indexed ∧ d.tbl.lookup c.idx = some h)) :
-    -- the encoding of the field with an empty value, cut right before the value string
-    let full := (encodeFieldCore d.tbl c (h.1, [])).1
-    (decodeBlock cap d (full.take (full.length - (encStr c.huffValue []).length))).err = some .badData :=
-  missing_value_badData cap (by omega) d hwf c h hok hlit
+theorem c07_missing_value_is_error (cap : Nat) (hcap : cap ≤ 65535) (d : Dec) (hwf : d.tbl.WF) :
+    (∀ (flag : Nat) (n : Bytes) (hn : Bool), flag = 0 ∨ flag = 16 ∨ flag = 64 → n ≠ [] →
+      n.length < cap → (decodeBlock cap d (flag.toUInt8 :: encStr hn n)).err = some .badData) ∧
+    (∀ (pbits flag idx : Nat) (n v0 : Bytes),
+      (pbits = 6 ∧ flag = 64) ∨ (pbits = 4 ∧ flag = 16) ∨ (pbits = 4 ∧ flag = 0) →
+      d.tbl.lookup idx = some (n, v0) → n.length ≤ cap →
+      (decodeBlock cap d (encInt pbits flag idx)).err = some .badData) :=
+  missing_value_badData cap (by omega) d hwf
 
 example : (decodeBlock 65535 Dec.init [0x00, 0x01, 0x61]).err = some .badData := by decide
 example : (decodeBlock 65535 Dec.init [0x45]).err = some .badData := by decide
